@@ -2,6 +2,7 @@ package models
 
 import (
 	"bufio"
+	"path/filepath"
 	"reflect"
 	"strings"
 	"testing"
@@ -113,5 +114,29 @@ func TestModelsAgainstStdlib(t *testing.T) {
 			}
 		}
 	})
+	t.Logf("%d strings", n)
+}
+
+func TestPathModels(t *testing.T) {
+	alpha := []byte{'/', '.', 'a', 'g', ' '}
+	var rec func(prefix []byte)
+	n := 0
+	rec = func(prefix []byte) {
+		s := string(prefix)
+		n++
+		if VerifModelPathExt(s) != filepath.Ext(s) {
+			t.Fatalf("Ext(%q): %q vs %q", s, VerifModelPathExt(s), filepath.Ext(s))
+		}
+		if VerifModelPathBase(s) != filepath.Base(s) {
+			t.Fatalf("Base(%q): %q vs %q", s, VerifModelPathBase(s), filepath.Base(s))
+		}
+		if len(prefix) == 7 {
+			return
+		}
+		for _, c := range alpha {
+			rec(append(prefix, c))
+		}
+	}
+	rec(nil)
 	t.Logf("%d strings", n)
 }
